@@ -57,6 +57,9 @@ class World:
         log = read_log(self.log)[before:]
         self.stats["invocations"] += 1
         self.stats["sched_steps"] += res.stats.get("steps", 0)
+        self.stats["sim_ms"] = self.stats.get("sim_ms", 0) + res.stats.get("sim_ms", 0)
+        self.stats["fs_ops"] = self.stats.get("fs_ops", 0) + int(res.stats.get("fsops", 0) or 0)
+        self.stats["scheduling_points_with_choice"] = self.stats.get("scheduling_points_with_choice", 0) + res.stats.get("choices2plus", 0)
         pol = res.stats.get("policy", "?")
         self.stats["policies"][pol] = self.stats["policies"].get(pol, 0) + 1
         self.sigs.append(res.trace_digest())
